@@ -228,7 +228,7 @@ fn final_stats(case: &Value) -> Value {
 }
 
 /// A real run. The case holds `toml` (with `@DIR@` standing for the scratch directory),
-/// `profile`, `scripts` (`name`, `exit`, `env_bytes`, `sleep_ms`, `hang`), `binaries` (`pkg`,
+/// `profile`, `scripts` (`name`, `exit`, `env_bytes`, `sleep_ms`, `hang`, `leak`), `binaries` (`pkg`,
 /// `binary_id`, `tests`), `test_threads`.
 fn real_run(case: &Value) -> Value {
     let dir = unique_path("run").with_extension("d");
@@ -268,6 +268,10 @@ fn real_run_in(case: &Value, dir: &Utf8PathBuf) -> Value {
         let mut body = format!(
             "printf 'S {name} start\\n' >> '{log}'\ncat '{dir}/envsrc-{name}' >> \"$NEXTEST_ENV\"\n"
         );
+        if sc["leak"].as_bool().unwrap_or(false) {
+            // a background child that keeps the (captured) stdout open after the script exits
+            body.push_str("sleep 1 2>/dev/null &\n");
+        }
         if let Some(ms) = sc["sleep_ms"].as_u64() {
             body.push_str(&format!("sleep {}.{:03}\n", ms / 1000, ms % 1000));
         }
